@@ -2,6 +2,8 @@ package mapr
 
 import (
 	"fmt"
+
+	"github.com/mimecast/dtail/internal/vhook"
 )
 
 // GlobalGroupSet is used on the dtail client to merge multiple group sets
@@ -36,10 +38,12 @@ func (g *GlobalGroupSet) Merge(query *Query, group *GroupSet) error {
 func (g *GlobalGroupSet) MergeNoblock(query *Query, group *GroupSet) (bool, error) {
 	select {
 	case g.semaphore <- struct{}{}:
+		vhook.At("merge.locked", g, group)
 		err := g.merge(query, group)
 		<-g.semaphore
 		return true, err
 	default:
+		vhook.At("merge.busy", g, group)
 		return false, nil
 	}
 }
